@@ -8,7 +8,7 @@ from .. import core, fm, km, mc
 from ..core import Failure
 from .. import graphs
 
-NAMINGS = ['int', 'str', 'tuple', 'mixed', 'zigzag']
+NAMINGS = ['int', 'str', 'tuple', 'mixed', 'zigzag', 'fsets']
 
 
 def N(f):
@@ -310,7 +310,9 @@ def apply_edit(env, ed):
     elif ed[0] == 'relabel':
         sw = {'p': 'q', 'q': 'p'}
         labels = [sorted(sw.get(x, x) for x in l) for l in labels]
-        env.kripke.replace_labelling_function(dict((nm(i), set(labels[i])) for i in range(n)))
+        newL = dict((nm(i), set(labels[i])) for i in range(n))
+        newL[('not-a-state', n)] = set(['p', 'q'])          # a table kept for a larger family of models
+        env.kripke.replace_labelling_function(newL)
     elif ed[0] == 'edge':
         a, b = ed[1] % n, ed[2] % n
         if [a, b] not in edges:
